@@ -79,6 +79,82 @@ async def one(server, verb, host, port, forced=None):
     return None, None
 
 
+# ---- end to end: the high-level Client.upload / Client.download and the stream API against a real in-process server
+import pathlib, tempfile, shutil  # noqa: E402
+
+BS = 64
+PAYLOADS = {"empty": b"", "one": b"\x00", "bs-1": bytes(range(BS - 1)), "bs": bytes(range(BS)), "bs+1": bytes(range(BS + 1)), "multi": bytes(range(256)) * 3 + b"\r\n\xff\xf4tail"}
+
+
+async def transfer(inp):
+    """inp: kind in upload/download/append/restart-up/restart-down, payload name, existing (old content present), offset"""
+    kind, payload, existing, off = inp["kind"], PAYLOADS[inp["payload"]], inp.get("existing", False), inp.get("offset", 0)
+    old = b"OLD-CONTENT-" * 7
+    server = aioftp.Server(path_io_factory=aioftp.MemoryPathIO, block_size=BS)
+    await server.start("127.0.0.1", 0)
+    tmp = pathlib.Path(tempfile.mkdtemp(prefix="c01_"))
+    bad = []
+    try:
+        async with aioftp.Client.context(*server.address) as c:
+            async def put(name, data, **kw):
+                async with c.upload_stream(name, **kw) as s:
+                    await s.write(data)
+
+            async def get(name, **kw):
+                async with c.download_stream(name, **kw) as s:
+                    return await s.read()
+
+            if kind == "upload":
+                if existing:
+                    await put("f", old)
+                (tmp / "f").write_bytes(payload)
+                await c.upload(tmp / "f", "f", write_into=True, block_size=BS)
+                if await get("f") != payload:
+                    bad.append("upload/stored-exactly")
+            elif kind == "download":
+                await put("f", payload)
+                if existing:
+                    (tmp / "g").write_bytes(old)
+                await c.download("f", tmp / "g", write_into=True, block_size=BS)
+                if not (tmp / "g").exists() or (tmp / "g").read_bytes() != payload:
+                    bad.append("download/delivered-exactly[" + ("empty-payload" if not payload else "other") + "]")
+            elif kind == "append":
+                await put("f", old)
+                async with c.append_stream("f") as s:
+                    await s.write(payload)
+                if await get("f") != old + payload:
+                    bad.append("append/stored-exactly")
+            elif kind == "restart-up":
+                await put("f", old)
+                await put("f", payload, offset=off)
+                want = old[:off] + payload + old[off + len(payload):] if off and payload else (old if off else payload)
+                if off > len(old) and payload:
+                    want = old + bytes(off - len(old)) + payload
+                if await get("f") != want:
+                    bad.append("restart-upload/stored-exactly")
+            elif kind == "restart-down":
+                await put("f", payload)
+                if await get("f", offset=off) != (payload[off:] if off else payload):
+                    bad.append("restart-download/delivered-exactly")
+    finally:
+        await server.close()
+        shutil.rmtree(tmp, ignore_errors=True)
+    return bad
+
+
+def transfer_inputs():
+    out = []
+    for pl in PAYLOADS:
+        for ex in (False, True):
+            out.append({"kind": "upload", "payload": pl, "existing": ex})
+            out.append({"kind": "download", "payload": pl, "existing": ex})
+        out.append({"kind": "append", "payload": pl})
+        for off in (0, 1, BS, 84, 100):
+            out.append({"kind": "restart-up", "payload": pl, "offset": off})
+            out.append({"kind": "restart-down", "payload": pl, "offset": off})
+    return out
+
+
 def check(verb, host, port, forced=None):
     server = aioftp.Server()
     v, got = asyncio.run(one(server, verb, host, port, forced))
@@ -110,6 +186,10 @@ def search(rnd, n):
                 found.setdefault(v, {"verb": "pasv", "host": host, "port": port, "forced": forced})
 
     asyncio.run(sweep())
+    for inp in transfer_inputs():
+        tried += 1
+        for v in asyncio.run(transfer(inp)):
+            found.setdefault(v, inp)
     if found:
         first = sorted(found)[0]
         return {"tried": tried, "failing": found[first], "violated": sorted(found), "all": found}
@@ -117,6 +197,8 @@ def search(rnd, n):
 
 
 def replay(inp):
+    if "kind" in inp:
+        return asyncio.run(transfer(inp))
     return check(inp["verb"], inp["host"], inp["port"], inp.get("forced"))
 
 
